@@ -175,18 +175,25 @@ def on_face(x, L, L0):
     return 0
 
 
-def too_close(parts, L0, extra=None):
-    """Two particles closer than 1e-10 root boxes in every coordinate: exact coincidence is a documented error of the
-    tree, and a pair a few ulps apart cannot be separated by cells whose centres are themselves rounded."""
+def too_close(parts, L0, extra=None, period=None):
+    """Two particles closer than 1e-10 root boxes in every coordinate - directly or, with periodic boundaries, through a
+    periodic image: exact coincidence is a documented error of the tree (and 0/0 in the force of an image), and a
+    pair a few ulps apart cannot be separated by cells whose centres are themselves rounded."""
     pts = [(q["x"], q["y"], q["z"]) for q in parts]
+
+    def near(p, q):
+        for k in range(3):
+            d = abs(p[k] - q[k])
+            if period is not None:
+                d = min(d, abs(d - period[k]))
+            if d >= 1e-10 * L0:
+                return False
+        return True
     if extra is not None:
-        return any(max(abs(a - b) for a, b in zip(p, extra)) < 1e-10 * L0 for p in pts)
-    pts.sort()
+        return any(near(p, extra) for p in pts)
     for i in range(len(pts)):
         for j in range(i + 1, len(pts)):
-            if pts[j][0] - pts[i][0] >= 1e-10 * L0:
-                break
-            if max(abs(a - b) for a, b in zip(pts[i], pts[j])) < 1e-10 * L0:
+            if near(pts[i], pts[j]):
                 return True
     return False
 
@@ -432,7 +439,8 @@ def run_history(case, ctx):
     box = {"L0": cfg["L0"], "layout": cfg["layout"]}
     parts = case["particles"] if border else [nudge(q, cfg) for q in case["particles"]]
     parts = [q for q in parts if inside(q, L) or (border and all(abs(q[ax]) <= 0.5 * L[k] for k, ax in enumerate("xyz")))]
-    if not parts or too_close(parts, cfg["L0"]):
+    period = L if cfg["boundary"] in ("periodic", "shear") else None
+    if not parts or too_close(parts, cfg["L0"], period=period):
         ctx.skip("coincident or nearly coincident particles")
         return
     faces = [max(on_face(q[ax], L[k], cfg["L0"]) for k, ax in enumerate("xyz")) for q in parts]
@@ -618,7 +626,7 @@ def run_history(case, ctx):
             cur = alive()
             if q["hash"] in used_hashes or not (inside(q, L) or border) or \
                     too_close([{"x": cur["x"][i], "y": cur["y"][i], "z": cur["z"][i]} for i in range(len(cur))],
-                              cfg["L0"], extra=(q["x"], q["y"], q["z"])):
+                              cfg["L0"], extra=(q["x"], q["y"], q["z"]), period=period):
                 continue
             if border and not all(abs(q[ax]) <= 0.5 * L[k] for k, ax in enumerate("xyz")):
                 continue
